@@ -14,7 +14,7 @@ Extraction "model.ml"
   ImplV5.api_decode ImplV5.api_apply ImplV5.api_equal ImplV5.apply_tree ImplV5.op_kind ImplV5.op_str ImplV5.op_value
   ImplMerge.api_merge ImplMerge.api_create
   Domain.den_op Domain.in_domain_C01 Domain.root_container Domain.dialect_of Domain.c14_path_ok
-  Domain.canonical_spelling Domain.pointer_ok
+  Domain.canonical_spelling Domain.pointer_ok Domain.copies_fit
   ImplV4.api_apply4 ImplV4.api_decode4 ImplV4.api_merge4 ImplV4.api_equal4 ImplV4.mkOpts4
   Cli.cli_run
   Scan.valid_gen Scan.compact_go Scan.indent_go
